@@ -10,7 +10,7 @@ from ..model import Func, Program, walk_own
 from ..report import Report
 from ..resolve import dotted
 from ..util import returns_of, src
-from .cachefam import (CacheFacts, rule_coherence_capacity, rule_invalidation, rule_list_ops, rule_value_stored)
+from .cachefam import (CacheFacts, rule_coherence_capacity, rule_invalidation, rule_list_ops, rule_lookup_source, rule_value_stored)
 
 
 def run(prog: Program, rep: Report):
@@ -21,6 +21,11 @@ def run(prog: Program, rep: Report):
     rule_value_stored(prog, rep, cf, "C06.R5")
     r6_payload_layout(prog, rep, cf)
     rule_list_ops(prog, rep, cf, "C06.R7")
+    rule_lookup_source(prog, rep, cf, "C06.R8")
+    from .memo import public_entry_points, rule_derived_state
+    rule_derived_state(prog, rep, "C06.R9", cf.cls, {cf.dict_field, cf.list_field}, public_entry_points(prog, cf.cls), config={cf.cap_field},
+                       what="a snapshot of the order, a remembered node or a bound method of the list must not survive a store, delete, "
+                            "eviction or clear")
 
 
 class _UseMoves(Client):
